@@ -1,17 +1,20 @@
-import Dashu.Proofs.Text.Fmt
-import Dashu.Proofs.Text.Layout
+import Dashu.Proofs.Text.Grammar
+import Dashu.Proofs.Text.Bytes
 /-
   C07 — Integer text and byte encodings round-trip and match the reference digits.
 
   Property theorems only (helper lemmas live in `Dashu/Proofs/Text`).  Every statement quantifies
-  over all word sizes `W`, all radices and all integers; nothing is bounded.  The definitions are
-  the ones `Dashu/Driver/Text.lean` executes.
+  over all word sizes `W` (the only requirement is that a radix fits a word: `36 < 2^W`, i.e.
+  `W ≥ 6`), all radices 2..36, all integers and all byte strings; nothing is bounded.  The
+  definitions are the ones `Dashu/Driver/Text.lean` executes.  Strings are byte lists; a byte is
+  a `Nat` (the theorems hold for arbitrary naturals, hence in particular for `UInt8` values).
 -/
 namespace Dashu.Props.C07
 open Dashu.Model.Text
 
-/-- positional representation: the reference digits of `n` evaluate to `n`, are all `< r`, and have no
-    leading zero -/
+-- ======================================================================= positional representation
+
+/-- the reference digits of `n` evaluate to `n`, are all `< r`, and have no leading zero -/
 theorem positional_representation (r n : Nat) (hr : 2 ≤ r) :
     ofDigits r (digits r n) = n ∧ (∀ d ∈ digits r n, d < r) ∧ digits r n ≠ [] ∧
     (n ≠ 0 → (digits r n).head? ≠ some 0) :=
@@ -25,14 +28,16 @@ theorem radix_table (W r : Nat) (hr : 2 ≤ r) (hrW : r < 2 ^ W) :
     1 ≤ (radixInfo W r).dpw ∧ (2 ∣ W → 2 ^ W ≤ (radixInfo W r).rpw * r) :=
   maxExpInWord_spec W r hr hrW
 
+-- ======================================================================= printing
+
 /-- the non-power-of-two printer (word / double word three-part split / medium repeated division /
     large divide-and-conquer tower with zero-padded chunks) prints exactly the reference digits -/
 theorem print_non_pow2_digits (W r n : Nat) (hr : 2 ≤ r) (hrW : r < 2 ^ W) :
     fmtNonPow2 W r n = digits r n :=
   fmtNonPow2_eq W r n hr hrW
 
-/-- each size class separately (the dispatcher picks by size; each printer is right on every input
-    it can be given) -/
+/-- each size class separately (each printer is right on every input it can be given, not only
+    on the sizes the dispatcher sends to it) -/
 theorem print_size_classes (W r n : Nat) (hr : 2 ≤ r) (hrW : r < 2 ^ W) :
     preparedWord r n 1 = digits r n ∧
     ((radixInfo W r).rpw ≤ n → preparedDword W r n = digits r n) ∧
@@ -47,14 +52,119 @@ theorem big_chunk_padded (W r : Nat) (hr : 2 ≤ r) (hrW : r < 2 ^ W) (ps : List
     writeBig W r ps x = digitsPad r (fmtChunkLen * (radixInfo W r).dpw * 2 ^ ps.length) x :=
   writeBig_eq (radixInfo_ok W r hr hrW) ps x ht
 
-/-- `InRadixWriter::format_prepared` lays the text out as `Formatter::pad_integral` does -/
+/-- the power-of-two printer (shift-and-mask for one or two words, bit slicing across word
+    boundaries on the word list for heap values) prints exactly the reference digits -/
+theorem print_pow2_digits (W r n : Nat) (hp : isPow2 r = true) (hr : 2 ≤ r) (hrW : r < 2 ^ W) :
+    fmtPow2 W r n = digits r n :=
+  fmtPow2_eq W r n hp hr hrW
+
+/-- `InRadixWriter::format_prepared` lays the text out as `Formatter::pad_integral` does, for every
+    combination of sign, `+`, `#`, `0`, width, fill and alignment -/
 theorem layout_eq_pad_integral (f : FmtSpec) (neg : Bool) (pfx buf : List Nat) :
     formatPrepared f neg (if f.alt then pfx else []) buf = padIntegral f (!neg) pfx buf :=
   formatPrepared_eq_padIntegral f neg pfx buf
 
+/-- **printing**: `Display`/`Binary`/`Octal`/`LowerHex`/`UpperHex`/`in_radix(r)` of an integer is
+    `pad_integral(z ≥ 0, prefix, digits of |z|)`: the reference digits with lower/upper-case letters,
+    a negative number printed as `-` followed by its magnitude in every radix -/
+theorem print_eq_reference (W : Nat) (t : FmtTrait) (f : FmtSpec) (z : Int)
+    (hv : validRadix t.radix = true) (hW : t.radix < 2 ^ W) :
+    fmtModel W t f z = fmtSpec t f z :=
+  fmtModel_eq_fmtSpec W t f z hv hW
+
+-- ======================================================================= parsing
+
+/-- **`from_str_radix` is the documented grammar as a total function** on byte strings: optional
+    sign (`-` only for `IBig`), digits of the radix in either case with `_` separators, at least one
+    digit; `NoDigits` / `InvalidDigit` / `UnsupportedRadix` otherwise — never a wrong number.
+    (Word / chunked / divide-and-conquer / bit-packing parsers all included.) -/
+theorem parse_radix_eq_grammar (W : Nat) (hW : 36 < 2 ^ W) (signed : Bool) (s : List Nat) (r : Nat) :
+    parseRadix W signed s r = parseRadixSpec signed s r :=
+  parseRadix_spec W hW signed s r
+
+/-- the same for `from_str_with_radix_default` / `from_str_with_radix_prefix` (prefixes `0b 0o 0x`) -/
+theorem parse_default_eq_grammar (W : Nat) (hW : 36 < 2 ^ W) (signed : Bool) (s : List Nat) (dflt : Nat) :
+    parseDefault W signed s dflt = parseDefaultSpec signed s dflt :=
+  parseDefault_spec W hW signed s dflt
+
+/-- malformed text is an error: whenever the parser returns a number, the body (after the sign) is
+    made of digits of the radix and `_` only, contains a digit, and the number is its Horner value -/
+theorem parse_ok_sound (W : Nat) (hW : 36 < 2 ^ W) (signed : Bool) (s : List Nat) (r : Nat) (v : Int)
+    (h : parseRadix W signed s r = .ok v) :
+    validRadix r = true ∧
+    ∃ ds, digitValues r ((splitSign signed s).2.filter (· ≠ 95)) = some ds ∧ ds ≠ [] ∧
+      v = applySign (splitSign signed s).1 (ofDigits r ds) := by
+  rw [parseRadix_spec W hW] at h
+  unfold parseRadixSpec at h
+  by_cases hv : validRadix r = true
+  · refine ⟨hv, ?_⟩
+    simp only [hv, Bool.not_true, Bool.false_eq_true, if_false] at h
+    unfold parseBodySpec at h
+    cases hd : digitValues r ((splitSign signed s).2.filter (· ≠ 95)) with
+    | none => rw [hd] at h; simp [Except.map] at h
+    | some ds =>
+      cases ds with
+      | nil => rw [hd] at h; simp [Except.map] at h
+      | cons a t =>
+        rw [hd] at h
+        simp only [Except.map, Except.ok.injEq] at h
+        exact ⟨a :: t, rfl, by simp, h.symm⟩
+  · simp [hv] at h
+
+/-- separator-only and empty bodies are rejected -/
+theorem parse_no_digits (W : Nat) (signed : Bool) (s : List Nat) (r : Nat)
+    (hv : validRadix r = true) (h : (splitSign signed s).2.all (· == 95) = true) :
+    parseRadix W signed s r = .error .noDigits := by
+  unfold parseRadix parseNoSign
+  simp [hv, h, Except.map]
+
+/-- **print → parse round trip** for every radix 2..36, every integer, lower case (`{}`), upper
+    case (`{:#}`) and with an explicit `+` (`{:+}`) -/
+theorem print_parse_round_trip (W : Nat) (hW : 36 < 2 ^ W) (r : Nat) (z : Int) (up plus : Bool)
+    (hv : validRadix r = true) :
+    parseRadix W true (fmtModel W (.inRadix r) { alt := up, plus := plus } z) r = .ok z :=
+  model_round_trip W hW r z up plus hv
+
+theorem print_parse_round_trip_unsigned (W : Nat) (hW : 36 < 2 ^ W) (r n : Nat) (up plus : Bool)
+    (hv : validRadix r = true) :
+    parseRadix W false (fmtModel W (.inRadix r) { alt := up, plus := plus } (n : Int)) r = .ok (n : Int) :=
+  model_round_trip_unsigned W hW r n up plus hv
+
+-- ======================================================================= bytes and chunks
+
+/-- unsigned bytes: decoding the encoding returns the number; the encoding is minimal -/
+theorem le_bytes_round_trip (n : Nat) :
+    ofLeBytesSpec (leBytesSpec n) = n ∧ (∀ b ∈ leBytesSpec n, b < 256) ∧
+    (leBytesSpec n).getLast? ≠ some 0 :=
+  ⟨ofLeBytesSpec_leBytesSpec n, (leBytesSpec_minimal n).1, (leBytesSpec_minimal n).2⟩
+
+/-- two's complement bytes: decoding the encoding returns the integer — for every integer,
+    including the negative exact powers `-(2^(8k))` -/
+theorem signed_bytes_round_trip (z : Int) :
+    ofSignedLeBytesSpec (signedLeBytesSpec z) = z ∧ ∀ b ∈ signedLeBytesSpec z, b < 256 :=
+  ⟨ofSignedLeBytesSpec_signedLeBytesSpec z, signedLeBytesSpec_bytes z⟩
+
+/-- chunks: `from_chunks(to_chunks(n, k), k) = n` for every chunk size `k ≥ 1` (the documented
+    precondition is `k ≠ 0`); chunks are `< 2^k` and the top chunk is non-zero -/
+theorem chunks_round_trip (n k : Nat) (hk : 1 ≤ k) :
+    ofChunksSpec k (chunksSpec n k) = n ∧ (∀ c ∈ chunksSpec n k, c < 2 ^ k) ∧
+    (chunksSpec n k).getLast? ≠ some 0 :=
+  ⟨ofChunksSpec_chunksSpec n k hk, (chunksSpec_bounds n k hk).1, (chunksSpec_bounds n k hk).2⟩
+
+/-- `chunk_bits = 0` panics in both directions, as documented -/
+theorem chunks_zero_panics (W n : Nat) (cs : List Nat) :
+    toChunks W n 0 = .error .chunkBitsZero ∧ fromChunks 0 cs = .error .chunkBitsZero := by
+  constructor <;> rfl
+
 -- non-vacuity: the hypotheses are met by every supported radix at every supported word size
-example : ∀ r ∈ [3, 10, 36], (2 : Nat) ≤ r ∧ r < 2 ^ 16 ∧ r < 2 ^ 64 := by decide
+example : ∀ r ∈ [2, 3, 10, 16, 36], validRadix r = true ∧ r < 2 ^ 16 ∧ r < 2 ^ 32 ∧ r < 2 ^ 64 := by decide
+example : (36 : Nat) < 2 ^ 16 ∧ (36 : Nat) < 2 ^ 32 ∧ (36 : Nat) < 2 ^ 64 := by decide
+example : isPow2 2 = true ∧ isPow2 8 = true ∧ isPow2 32 = true ∧ isPow2 10 = false := by decide
 example : fmtNonPow2 64 10 (10 ^ 5000 + 7) = digits 10 (10 ^ 5000 + 7) :=
   print_non_pow2_digits 64 10 _ (by decide) (by decide)
+example : parseRadix 64 true (fmtModel 64 (.inRadix 36) { alt := true } (-(2 ^ 20000))) 36 = .ok (-(2 ^ 20000)) :=
+  print_parse_round_trip 64 (by decide) 36 _ true false (by decide)
+example : ofSignedLeBytesSpec (signedLeBytesSpec (-(2 ^ 128))) = -(2 ^ 128) :=
+  (signed_bytes_round_trip _).1
 
 end Dashu.Props.C07
